@@ -11,8 +11,9 @@ func TestRefNearRate(t *testing.T) {
 		for n := 4; n <= 7; n++ {
 			r := NewRNG(uint64(1000 + n))
 			hits, tot, rounds, decided := 0, 0, 0, 0
+			hist := map[string]int{}
 			st := time.Now()
-			for k := 0; k < 2000; k++ {
+			for k := 0; k < 6000; k++ {
 				var plays []synthPlay
 				if gen == "synth" {
 					plays = synthPlays(r, n, 14)
@@ -26,9 +27,110 @@ func TestRefNearRate(t *testing.T) {
 				decided += len(f.fame)
 				if len(f.nears) > 0 {
 					hits++
+					for _, nr := range f.nears {
+						hist[fmt.Sprintf("%d/%d", nr.t, nr.ss)]++
+					}
 				}
 			}
 			fmt.Printf("%s n=%d: %d/%d DAGs with contrary near-miss; avg rounds %.1f decided witnesses %.1f; %.2f ms/DAG\n", gen, n, hits, tot, float64(rounds)/float64(tot), float64(decided)/float64(tot), float64(time.Since(st).Milliseconds())/float64(tot))
+			fmt.Println("   ", hist)
 		}
+	}
+}
+
+func TestRefClimb(t *testing.T) {
+	for n := 4; n <= 7; n++ {
+		r := NewRNG(uint64(77 + n))
+		ok, tot := 0, 0
+		hist := map[string]int{}
+		st := time.Now()
+		for k := 0; k < 40; k++ {
+			plays := gossipPlays(r, n, 50+12*n)
+			if k%2 == 0 {
+				plays = synthPlays(r, n, 8)
+			}
+			sm := refSuperMajority(n)
+			_, f := climbPlays(r, n, plays, 10000, 4, func(f *refFame) bool {
+				for _, nr := range f.nears {
+					if nr.ss == sm && nr.t == sm-1 {
+						return true
+					}
+				}
+				return false
+			})
+			tot++
+			bestT, bestS := 0, 1
+			for _, nr := range f.nears {
+				if nr.t*bestS > bestT*nr.ss {
+					bestT, bestS = nr.t, nr.ss
+				}
+				if nr.ss == sm && nr.t == sm-1 {
+					ok++
+					break
+				}
+			}
+			hist[fmt.Sprintf("%d/%d", bestT, bestS)]++
+		}
+		fmt.Printf("climb n=%d: %d/%d strong contrary votes; %.0f ms/run; best near per run %v\n", n, ok, tot, float64(time.Since(st).Milliseconds())/float64(tot), hist)
+	}
+}
+
+func TestRefCoordsVsTextbook(t *testing.T) {
+	for n := 4; n <= 7; n++ {
+		r := NewRNG(uint64(500 + n))
+		dags, roundDiff, under, fameDiff, wits, dissent := 0, 0, 0, 0, 0, 0
+		for k := 0; k < 20000; k++ {
+			plays := gossipPlays(r, n, 60+15*n)
+			if k%2 == 0 {
+				plays = synthPlays(r, n, 10)
+			}
+			a0, _ := refFromPlays(n, plays)
+			a := newRefDag(n)
+			a.coords = false
+			for i := range a0.creator {
+				a.add(a0.creator[i], a0.selfP[i], a0.otherP[i], "")
+			}
+			b := newRefDag(n)
+			b.coords = true
+			b.deep = true
+			for i := range a.creator {
+				b.add(a.creator[i], a.selfP[i], a.otherP[i], "")
+			}
+			dags++
+			same := true
+			for i := range a.round {
+				if a.round[i] != b.round[i] {
+					same = false
+				}
+			}
+			if !same {
+				roundDiff++
+				continue
+			}
+			sm := refSuperMajority(n)
+			for j := 1; j < len(b.wits); j++ {
+				for _, y := range b.wits[j] {
+					wits++
+					ss := 0
+					for _, w := range b.wits[j-1] {
+						if b.stronglySees(y, w) {
+							ss++
+						}
+					}
+					if ss < sm {
+						under++
+					}
+				}
+			}
+			fa := a.computeFame(4, nil)
+			fb := b.computeFame(4, nil)
+			for x, v := range fa.fame {
+				if vb, ok := fb.fame[x]; ok && vb != v {
+					fameDiff++
+				}
+			}
+			dissent += len(fb.dissent)
+		}
+		fmt.Printf("n=%d: %d DAGs, rounds differ in %d; witnesses strongly seeing fewer than a supermajority of the previous round (coordinates): %d of %d; fame differs textbook/coordinates: %d; votes against a decision of the same round: %d\n", n, dags, roundDiff, under, wits, fameDiff, dissent)
 	}
 }
